@@ -228,9 +228,77 @@ static void fence_init(void) {
     sigaction(SIGSEGV, &sa, NULL);
     sigaction(SIGBUS, &sa, NULL);
 }
+
+/* ------------------------------------------------------------------ footprint monitor (C12)
+ * When the harness is linked against the shared build (libsafec_v.so, -z now), fp_init() locates the loaded
+ * image, reads the .data/.bss section ranges and the object symbols from the file, and fp_before()/fp_after()
+ * compare a byte snapshot of that storage around a single call.  A changed byte that does not belong to the
+ * handler-registration variables is a C12 event: "function F left a footprint in symbol S". */
+#include <link.h>
+#include <elf.h>
+#include <fcntl.h>
+#include <sys/stat.h>
+static int g_fp_on;
+static struct { uint8_t *addr; size_t len; uint8_t *snap; const char *name; } g_fp_rng[4]; static int g_fp_nr;
+static struct { uintptr_t addr; size_t size; char name[48]; } *g_fp_sym; static int g_fp_nsym;
+static uintptr_t g_fp_base; static char g_fp_path[512];
+static const char *g_cur_fn = "?";
+static unsigned long long g_fp_checks, g_fp_bytes;
+static int fp_phdr_cb(struct dl_phdr_info *info, size_t sz, void *d) {
+    (void)sz; (void)d;
+    if (info->dlpi_name && strstr(info->dlpi_name, "libsafec_v.so")) { g_fp_base = info->dlpi_addr; snprintf(g_fp_path, sizeof g_fp_path, "%s", info->dlpi_name); return 1; }
+    return 0;
+}
+static int fp_init(void) {
+    dl_iterate_phdr(fp_phdr_cb, NULL);
+    if (!g_fp_base) return 0;
+    int fd = open(g_fp_path, O_RDONLY); if (fd < 0) return 0;
+    struct stat st; fstat(fd, &st);
+    uint8_t *f = mmap(NULL, (size_t)st.st_size, PROT_READ, MAP_PRIVATE, fd, 0); close(fd);
+    if (f == MAP_FAILED) return 0;
+    Elf64_Ehdr *eh = (Elf64_Ehdr *)f; Elf64_Shdr *sh = (Elf64_Shdr *)(f + eh->e_shoff); const char *shstr = (const char *)f + sh[eh->e_shstrndx].sh_offset;
+    for (int i = 0; i < eh->e_shnum; i++) {
+        const char *n = shstr + sh[i].sh_name;
+        if ((!strcmp(n, ".data") || !strcmp(n, ".bss")) && sh[i].sh_size && g_fp_nr < 4) {
+            g_fp_rng[g_fp_nr].addr = (uint8_t *)(g_fp_base + sh[i].sh_addr); g_fp_rng[g_fp_nr].len = sh[i].sh_size; g_fp_rng[g_fp_nr].snap = malloc(sh[i].sh_size); g_fp_rng[g_fp_nr].name = !strcmp(n, ".data") ? ".data" : ".bss"; g_fp_nr++;
+        }
+        if (sh[i].sh_type == SHT_SYMTAB) {
+            Elf64_Sym *sy = (Elf64_Sym *)(f + sh[i].sh_offset); size_t ns = sh[i].sh_size / sizeof *sy; const char *str = (const char *)f + sh[sh[i].sh_link].sh_offset;
+            g_fp_sym = calloc(ns, sizeof *g_fp_sym);
+            for (size_t k = 0; k < ns; k++) if (ELF64_ST_TYPE(sy[k].st_info) == STT_OBJECT && sy[k].st_size) { g_fp_sym[g_fp_nsym].addr = g_fp_base + sy[k].st_value; g_fp_sym[g_fp_nsym].size = sy[k].st_size; snprintf(g_fp_sym[g_fp_nsym].name, sizeof g_fp_sym[0].name, "%s", str + sy[k].st_name); g_fp_nsym++; }
+        }
+    }
+    g_fp_on = g_fp_nr > 0;
+    return g_fp_on;
+}
+static inline void fp_before(void) { if (g_fp_on) for (int i = 0; i < g_fp_nr; i++) memcpy(g_fp_rng[i].snap, g_fp_rng[i].addr, g_fp_rng[i].len); }
+static const char *fp_symbol(uintptr_t a, long *off) {
+    for (int i = 0; i < g_fp_nsym; i++) if (a >= g_fp_sym[i].addr && a < g_fp_sym[i].addr + g_fp_sym[i].size) { *off = (long)(a - g_fp_sym[i].addr); return g_fp_sym[i].name; }
+    *off = 0; return "(no symbol)";
+}
+static void fp_after(void) {
+    if (!g_fp_on) return;
+    g_fp_checks++;
+    for (int i = 0; i < g_fp_nr; i++) {
+        g_fp_bytes += g_fp_rng[i].len;
+        if (!memcmp(g_fp_rng[i].snap, g_fp_rng[i].addr, g_fp_rng[i].len)) continue;
+        for (size_t k = 0; k < g_fp_rng[i].len; k++) if (g_fp_rng[i].snap[k] != g_fp_rng[i].addr[k]) {
+            long off; const char *sym = fp_symbol((uintptr_t)g_fp_rng[i].addr + k, &off);
+            if (!strcmp(sym, "str_handler") || !strcmp(sym, "mem_handler")) { k += 7; continue; }     /* the registration variables */
+            char key[200], what[400], w[400];
+            snprintf(key, sizeof key, "footprint|%s|%s", g_cur_fn, sym);
+            snprintf(what, sizeof what, "%s changed the library's own static storage: %s+%ld in %s (%02x -> %02x): state kept across calls", g_cur_fn, sym, off, g_fp_rng[i].name, g_fp_rng[i].snap[k], g_fp_rng[i].addr[k]);
+            snprintf(w, sizeof w, "{\"harness\":\"footprint\",\"fn\":\"%s\",\"symbol\":\"%s\",\"offset\":%ld,\"section\":\"%s\"}", g_cur_fn, sym, off, g_fp_rng[i].name);
+            if (!strcmp(g_prop, "C12") || !strcmp(g_prop, "ALL")) report("C12", key, what, w);
+            break;
+        }
+    }
+}
+
 /* FENCED(stmt): run stmt; afterwards g_fence.faulted tells whether it faulted */
-#define FENCED(stmt) do { g_fence.faulted = 0; \
+#define FENCED(stmt) do { g_fence.faulted = 0; fp_before(); \
     if (sigsetjmp(g_fence.env, 1) == 0) { g_fence.active = 1; stmt; g_fence.active = 0; } \
+    if (!g_fence.faulted) fp_after(); \
     } while (0)
 
 /* ------------------------------------------------------------------ probe handlers */
